@@ -3,6 +3,8 @@ import PysphVerif.Model.Nnps
 import PysphVerif.Model.NnpsStore
 import PysphVerif.Model.NnpsZOrder
 import PysphVerif.Model.NnpsStrat
+import PysphVerif.Model.NnpsBounds
+import PysphVerif.Model.NnpsAlias
 /-!
 Line protocol for C01 (exact rationals):
 
@@ -64,6 +66,30 @@ node; `S` is the source array the tree was built from, each `D` a destination ar
 and `all` = the other two hypotheses (leaf index lists hold every source index exactly once),
 `query` = the model's traversal of this tree returns the brute-force list (as a set) for every
 destination particle.
+
+  `bounds big=<x> pad=<x> eps=<x> half=<x> cs=<x> A x=<xl> y=<xl> z=<xl> A …`
+
+(doubles as bit patterns) runs `NNPS._compute_bounds` / `_get_number_of_cells` / `find_cell_id` of
+`Model/NnpsBounds.lean` at `Float`, i.e. with the operations of the compiled code in the same order,
+and answers
+
+  `lo=<x,x,x> hi=<x,x,x> nc=<n,n,n> valid=<ok|BAD> face=<n> top=<n> hiface=<n>`
+
+`lo / hi` must equal `nps.xmin / nps.xmax` of the real object bit for bit, `nc` the
+`ncells_per_dim` of LinkedListNNPS / BoxSortNNPS; `valid` = every particle of every array is binned
+into a valid cell (`allValid`, the conclusion of `padded_bounds_valid` evaluated in doubles);
+`face` = number of (particle, axis) pairs whose `(x - xmin)/cs` is a positive whole number in
+doubles (the particle sits exactly on a cell face of the real grid), `top` = number of axes on
+which that holds for the largest coordinate, `hiface` = number of axes on which
+`cell_size1*(xmax - xmin)` is a positive whole number.
+
+  `alias rs=<rat> A x=… y=… z=… h=… A … O <op> <op> …`
+
+runs a history of query-API calls on the ownership model of `Model/NnpsAlias.lean`:
+`c:<obj>:<s>:<d>:<i>:<a>` cached query of object `obj` for destination `i` of array `d` among
+source `s` with output array `a`; `n:<obj>:<s>:<d>:<i>:<a>:<p>` un-cached query (`p` = 1:
+`prealloc=True`); `r:<obj>` reset of the caches of `obj`.  Answers `safe=<ok|BAD> R <l0>|<l1>|…`
+with the list the caller reads after every call (`-` for a reset).
 -/
 namespace PysphVerif.Driver.C01
 open PysphVerif.Wire PysphVerif.Nnps
@@ -380,6 +406,90 @@ def handleTree (rs : Rat) (t : Tree Rat) (src : List (Pt Rat)) (dsts : List (Lis
     " query=" ++ okBad query ++ " nodes=" ++ toString (Tree.size t) ++
     " npids=" ++ toString pids.length
 
+/-! ### `bounds`: the padded bounds at `Float` -/
+
+def fFloor (f : Float) : Int := (Float.floor f).toInt64.toInt
+def fCeil (f : Float) : Int := (Float.ceil f).toInt64.toInt
+
+def zip3F : List Float → List Float → List Float → Option (List (Pt Float))
+  | [], [], [] => some []
+  | x :: xs, y :: ys, z :: zs => (zip3F xs ys zs).map (fun r => { x := x, y := y, z := z, h := 0 } :: r)
+  | _, _, _ => none
+
+def parseArrF (toks : List String) : Option (List (Pt Float)) := do
+  let kv := kvs toks
+  let x ← (lookup kv "x") >>= parseList? parseFloatBits?
+  let y ← (lookup kv "y") >>= parseList? parseFloatBits?
+  let z ← (lookup kv "z") >>= parseList? parseFloatBits?
+  zip3F x y z
+
+/-- `t` is a positive whole number -/
+def wholePos (t : Float) : Bool := decide (0 < t) && (Float.floor t == t)
+
+def handleBounds (big pad eps half cs : Float) (arrs : List (List (Pt Float))) : String :=
+  let B := boundsOf big pad eps half cs arrs
+  let nc := ncells fCeil cs B
+  let valid := allValid fFloor fCeil cs B arrs
+  let allp := arrs.flatMap id
+  let onFace := fun (lo x : Float) => wholePos ((x - lo) / cs)
+  let face := (allp.filter (fun p => onFace B.x.1 p.x)).length +
+    (allp.filter (fun p => onFace B.y.1 p.y)).length + (allp.filter (fun p => onFace B.z.1 p.z)).length
+  let r := rawBounds big (colsOf (·.x) arrs) (colsOf (·.y) arrs) (colsOf (·.z) arrs)
+  let top := (if onFace B.x.1 r.x.2 then 1 else 0) + (if onFace B.y.1 r.y.2 then 1 else 0) +
+    (if onFace B.z.1 r.z.2 then 1 else 0)
+  let hf := fun (a : Float × Float) => if wholePos ((1 / cs) * (a.2 - a.1)) then 1 else 0
+  let hiface := hf B.x + hf B.y + hf B.z
+  "lo=" ++ showList showFloatBits [B.x.1, B.y.1, B.z.1] ++
+    " hi=" ++ showList showFloatBits [B.x.2, B.y.2, B.z.2] ++
+    " nc=" ++ showList showNat [nc.1, nc.2.1, nc.2.2] ++
+    " valid=" ++ (if valid then "ok" else "BAD") ++
+    " face=" ++ toString face ++ " top=" ++ toString top ++ " hiface=" ++ toString hiface
+
+/-! ### `alias`: histories of query-API calls on the ownership model -/
+
+def parseAOp (narr : Nat) (t : String) : Option AOp :=
+  let cid := fun (obj s d : Nat) => obj * narr * narr + d * narr + s
+  match t.splitOn ":" with
+  | ["c", obj, s, d, i, a] => do
+    let obj ← parseNat? obj; let s ← parseNat? s; let d ← parseNat? d
+    let i ← parseNat? i; let a ← parseNat? a
+    if s < narr ∧ d < narr then some (AOp.cached (cid obj s d) i a) else none
+  | ["n", obj, s, d, i, a, p] => do
+    let obj ← parseNat? obj; let s ← parseNat? s; let d ← parseNat? d
+    let i ← parseNat? i; let a ← parseNat? a; let p ← parseNat? p
+    if s < narr ∧ d < narr ∧ p < 2 then some (AOp.direct (p == 0) (cid obj s d) i a) else none
+  | ["r", obj] => do
+    let obj ← parseNat? obj
+    some (AOp.reset (obj * narr * narr) ((obj + 1) * narr * narr))
+  | _ => none
+
+def handleAlias (rs : Rat) (arrs : List (List (Pt Rat))) (ops : List AOp) : String :=
+  let narr := arrs.length
+  -- which (pair, destination) entries the history asks for
+  let flags0 : Array (Array Bool) := ((List.range (narr * narr)).map (fun k =>
+    Array.replicate (arrs.getD (k / narr) []).length false)).toArray
+  let flags := ops.foldl (fun (fl : Array (Array Bool)) op =>
+    match op with
+    | AOp.cached c i _ => fl.modify (c % (narr * narr)) (fun row => row.modify i (fun _ => true))
+    | AOp.direct _ c i _ => fl.modify (c % (narr * narr)) (fun row => row.modify i (fun _ => true))
+    | AOp.reset _ _ => fl) flags0
+  -- brute-force lists of those entries, tabulated once
+  let tab : Array (Array (List Nat)) := ((List.range (narr * narr)).map (fun k =>
+    let dst := arrs.getD (k / narr) []
+    let src := arrs.getD (k % narr) []
+    let row := flags.getD k #[]
+    (((List.range dst.length).zip dst).map (fun (i, q) =>
+      if row.getD i false then bruteForce rs src q else [])).toArray)).toArray
+  let find : Nat → Nat → List Nat := fun c i =>
+    if narr = 0 then [] else ((tab.getD (c % (narr * narr)) #[]).getD i [])
+  let safe := AState.safeRun find AState.init ops
+  let res := (AState.run find AState.init ops).2
+  let shown := (ops.zip res).map (fun (op, l) =>
+    match op with
+    | AOp.reset _ _ => "-"
+    | _ => showList showNat (sortNat l))
+  "safe=" ++ (if safe then "ok" else "BAD") ++ " R " ++ "|".intercalate shown
+
 def handle (line : String) : String :=
   match tokens line with
   | cmd :: rest =>
@@ -429,6 +539,30 @@ def handle (line : String) : String :=
              (hs.map (sfcLevelOfFixed rs cs L))))
          else "bad-op"
        | _, _, _, _, _, _, _ => "bad-op")
+    else if cmd = "bounds" then
+    (match groups "A" rest with
+     | [] => "bad-op"
+     | hd :: gs =>
+       let kv := kvs hd
+       match (lookup kv "big") >>= parseFloatBits?, (lookup kv "pad") >>= parseFloatBits?,
+             (lookup kv "eps") >>= parseFloatBits?, (lookup kv "half") >>= parseFloatBits?,
+             (lookup kv "cs") >>= parseFloatBits?, gs.mapM parseArrF with
+       | some big, some pad, some eps, some half, some cs, some arrs =>
+         handleBounds big pad eps half cs arrs
+       | _, _, _, _, _, _ => "bad-op")
+    else if cmd = "alias" then
+    (match groups "O" rest with
+     | [body, optoks] =>
+       (match groups "A" body with
+        | [] => "bad-op"
+        | hd :: gs =>
+          match (lookup (kvs hd) "rs") >>= parseRat?, gs.mapM parseArr with
+          | some rs, some arrs =>
+            (match optoks.mapM (parseAOp arrs.length) with
+             | some ops => handleAlias rs arrs ops
+             | none => "bad-op")
+          | _, _ => "bad-op")
+     | _ => "bad-op")
     else if cmd = "tree" then
     (match groups "T" rest with
      | [hd, body] =>
